@@ -8,7 +8,11 @@ CHECK = {'rule': 'three case kinds. crypt: one plaintext (empty, 1, 15-17, 4095-
          'histories run in lock-step on encryptfs(base) and a plain base of the same kind; non-trivial: >= 1 successful mkdir/remove/copy, >= 1 '
          'non-empty write, >= 1 query after both. bytes: arbitrary stored bytes through both read paths and the cipher directly (no panic; no data '
          'with an error); every case counts. TestEnum: fixed grid cipher x base x plaintext length {0,1,15,16,17} with every truncation and every '
-         'single-bit flip. Distinct = distinct case JSON (FNV-64).',
+         'single-bit flip. Streams phase of every crypt case (and of every TestEnum case): 2-4 extra files with different plaintexts, 2-4 stream '
+         'Readers (7 on the enum grid) open at the same time on different files (same file twice on disk only), driven by one goroutine in a generated '
+         'interleaving, each with a generated consumption style (Read loop, io.ReadAll, io.Copy, io.Copy to a plain Writer, Read k + io.Copy, Read k + '
+         'WriteTo, io.ReadFull k + ReadAll), closed at once or all at the end; every reader must deliver exactly its own plaintext. '
+         'Distinct = distinct case JSON (FNV-64).',
  'assumptions': ["an underlying filespace's Reader may return fewer bytes than asked for (io.Reader contract) - base kind 'memshort'",
                  'precondition kept from C02: the parent directory of a written path exists in the base',
                  "'never with data' is read strictly: a failing read must not deliver any byte, also not before the error of a stream",
@@ -44,7 +48,18 @@ CHECK = {'rule': 'three case kinds. crypt: one plaintext (empty, 1, 15-17, 4095-
                               'ns:via-child-view',
                               'bytes:empty',
                               'bytes:shorter-than-tag',
-                              'bytes:shorter-than-header']},
+                              'bytes:shorter-than-header',
+                              'streams:overlap',
+                              'streams:prefix-then-bulk',
+                              'streams:same-file-twice',
+                              'streams:close-late',
+                              'style:read',
+                              'style:readall',
+                              'style:copy',
+                              'style:copy-plain',
+                              'style:read+copy',
+                              'style:read+writeto',
+                              'style:readfull+readall']},
  'tiers': {'quick': [{'test': '^TestProp$', 'checks': 170, 'shards': 8, 'timeout': 240},
                      {'test': '^TestPropNS$', 'checks': 1200, 'shards': 2, 'timeout': 240},
                      {'test': '^TestPropBytes$', 'checks': 3000, 'shards': 1, 'timeout': 240},
@@ -61,7 +76,7 @@ TEXT = {'technique': 'round-trip / metamorphic property testing (rapid) of encry
               '(rapid + native fuzz target FuzzBytes)',
  'level_text': 'Exploration: ~1 400 generated key/plaintext/cipher/base configurations per quick run with ~380 000 wrong-key or tampered reads, '
                'every truncation length and byte offset of small blobs and every single-bit flip on a fixed grid, 2 400 name-space histories '
-               'compared with the plain base. Cryptographic strength is not assessed - only that AEAD failures surface as errors.',
+               'compared with the plain base, ~5 000 concurrently open stream readers with generated interleavings and consumption styles. Cryptographic strength is not assessed - only that AEAD failures surface as errors.',
  'level_note': 'Open finding C05-key-concat (secret||salt concatenation ambiguity) is reproduced on every run and its class is excluded from '
                'generation by construction. Assumes an underlying Reader may return short reads; secrecy judged for plaintexts >= 8 B; nothing '
                'asserted about a different HostOnly flag.',
